@@ -879,7 +879,7 @@ func wildJSON(c *runner.Ctx, depth int) interface{} {
 
 // wildQuery draws a request whose arguments and variables are arbitrary: the
 // server may answer with data or with an error, it must not crash or hang.
-func wildQuery(c *runner.Ctx) (string, map[string]interface{}) {
+func wildQuery(c *runner.Ctx, w *world) (string, map[string]interface{}) {
 	texts := []string{
 		`query Q($v: probeIn_InputObject) { probe(o: $v, s: [1, 2], f: 1.5, b: true, u: 1, i32: 1, str: "x") }`,
 		`query Q($v: [int64!]) { probe(s: $v, f: 1, b: false, u: 0, i32: 0, str: "") }`,
@@ -923,8 +923,63 @@ func wildQuery(c *runner.Ctx) (string, map[string]interface{}) {
 	}
 	k := c.Choose(len(texts), "wild-query")
 	vars := map[string]interface{}{}
+	if c.Choose(2, "wild-by-mutation") == 1 {
+		// a generated, valid query damaged at the token level
+		g := &gen{c: c, w: w, budget: 6, rootTN: true, bareFrags: true, unionFrags: true}
+		root := g.genSet("Query", 0)
+		g.dirs = true
+		g.decorate(root)
+		c.Probe("mutated-query-text")
+		return mutateText(c, g.text(root, "")), dirVars()
+	}
 	if c.Choose(5, "wild-no-var") != 0 {
 		vars["v"] = wildJSON(c, 0)
 	}
 	return texts[k], vars
+}
+
+// mutateText damages a well-formed query at the token level (drop, repeat,
+// swap, insert from a small dictionary): whatever comes out, the server owes
+// an answer - data or an error - and nothing else.
+func mutateText(c *runner.Ctx, text string) string {
+	var toks []string
+	cur := ""
+	flush := func() {
+		if cur != "" {
+			toks = append(toks, cur)
+			cur = ""
+		}
+	}
+	for _, r := range text {
+		switch {
+		case r == ' ' || r == '\n' || r == '\t':
+			flush()
+		case strings.ContainsRune("{}():$@!=[],", r):
+			flush()
+			toks = append(toks, string(r))
+		default:
+			cur += string(r)
+		}
+	}
+	flush()
+	dict := []string{"{", "}", "(", ")", "...", "on", "fragment", "query", "mutation", "subscription", "@skip", "@include", "(if: $t)", "(if: true)",
+		":", "$v", "$", "!", "[", "]", "\"", "\"\"\"", "\\u12", "1e999", "-", "0x10", "null", "true", "__typename", "__schema", "A", "U", "Query", "id", "as", "us", "a(i: 0)", "#", ",", "=", "&", "|"}
+	n := 1 + c.Choose(3, "mutations")
+	for k := 0; k < n && len(toks) > 0; k++ {
+		i := c.Choose(len(toks), "mutation-at")
+		switch c.Choose(4, "mutation-kind") {
+		case 0: // drop
+			toks = append(toks[:i], toks[i+1:]...)
+		case 1: // repeat
+			toks = append(toks[:i+1], toks[i:]...)
+		case 2: // swap with the next
+			if i+1 < len(toks) {
+				toks[i], toks[i+1] = toks[i+1], toks[i]
+			}
+		default: // insert
+			t := dict[c.Choose(len(dict), "mutation-token")]
+			toks = append(toks[:i], append([]string{t}, toks[i:]...)...)
+		}
+	}
+	return strings.Join(toks, " ")
 }
